@@ -23,6 +23,9 @@ import (
 type Fail struct {
 	Sig string
 	Msg string
+	// Case, when set, replaces the enumerated case in the replay artefact (e.g. the exact
+	// event path found by a depth-first search below the enumerated start state).
+	Case any
 }
 
 func Failf(sig, format string, a ...any) *Fail {
